@@ -187,7 +187,7 @@ _TAGSHAPES = ([], [["e", "x"]], [["d"]], [["d"], ["t", "nostr"], ["client", "dem
 
 @obligation(funcs=["storage.db.DBStorage.add_event", "storage.db.DBStorage.process_tags", "storage.db.event_from_tuple",
                    "storage.kv.LMDBStorage.add_event", "storage.kv.encode_event", "storage.kv.decode_event", "storage.kv.matcher"],
-            params=range(2), timeout=(200, 900),
+            params=range(2), timeout=(350, 1200),
             bounds="PARAM 0 SQL / 1 LMDB.  An accepted event with symbolic kind/created_at and tags from 7 shapes (bare, empty, "
                    "duplicate, int value, long names) is compared field for field with (a) the object pushed live, (b) the event "
                    "read back from storage (SQL row -> event_from_tuple; LMDB msgpack row -> decode_event and the matcher's "
